@@ -4,7 +4,7 @@
    Executable definitions only. *)
 From Coq Require Import List NArith ZArith Bool Arith.
 From LMBase Require Import Res ListX.
-From LMIo Require Import IoBase IoNom IoJaspar.
+From LMIo Require Import GenIoAbc IoBase IoNom IoJaspar.
 Import ListNotations.
 
 (* ---------- what is written ---------- *)
@@ -143,7 +143,7 @@ Definition same_width (cols : list (N * list (list N))) : bool :=
 Definition wf_jaspar (p : style * src) : bool :=
   let (y, r) := p in
   wf_style y && wf_id (sid r) && wf_desc (sdesc r)
-  && list_eqb (map fst (scols r)) [65; 67; 71; 84]%N
+  && list_eqb (map fst (scols r)) (map fst gen_jaspar_symbols)
   && same_width (scols r) && (1 <=? width (scols r))
   && forallb (fun c => forallb wf_count (snd c)) (scols r).
 
